@@ -159,12 +159,42 @@ func (v *vc) binop(fr *frame, st *state, in *ssa.BinOp) string {
 	case token.SUB:
 		return v.define(name, "Int", v.wrapOrCheck(fr, st, in, fmt.Sprintf("(- %s %s)", x, y), t))
 	case token.MUL:
+		_, xc := constInt(in.X)
+		_, yc := constInt(in.Y)
+		if !xc && !yc {
+			// nonlinear product: kept abstract (uf_mul) with valid facts about multiplication, so that the
+			// solvers stay in linear arithmetic; precision is lost, soundness is not
+			m := v.define(name+".mul", "Int", fmt.Sprintf("(uf_mul %s %s)", x, y))
+			v.fact(st, fmt.Sprintf("(= %s (uf_mul %s %s))", m, y, x))
+			v.fact(st, fmt.Sprintf("(=> (and (>= %s 0) (>= %s 0)) (>= %s 0))", x, y, m))
+			v.fact(st, fmt.Sprintf("(=> (and (>= %s 1) (>= %s 1)) (and (>= %s %s) (>= %s %s)))", x, y, m, x, m, y))
+			v.fact(st, fmt.Sprintf("(=> (and (<= 0 %s) (<= %s 65536) (<= 0 %s) (<= %s 65536)) (<= %s 4294967296))", x, x, y, y, m))
+			v.fact(st, fmt.Sprintf("(=> (or (= %s 0) (= %s 0)) (= %s 0))", x, y, m))
+			return v.define(name, "Int", v.wrapOrCheck(fr, st, in, m, t))
+		}
 		return v.define(name, "Int", v.wrapOrCheck(fr, st, in, fmt.Sprintf("(* %s %s)", x, y), t))
 	case token.QUO, token.REM:
 		if !(fr.fc != nil && fr.fc.nosafety) {
 			v.oblige(st, "safety", "div", v.site(in), fmt.Sprintf("(not (= %s 0))", y), nil)
 		} else {
 			v.fact(st, fmt.Sprintf("(not (= %s 0))", y))
+		}
+		if _, yc := constInt(in.Y); !yc {
+			// division by a non-constant: abstract quotient / remainder with their valid range facts
+			// (keeps the solvers in linear arithmetic)
+			fn := "uf_div"
+			if in.Op == token.REM {
+				fn = "uf_rem"
+			}
+			r := v.define(name, "Int", fmt.Sprintf("(%s %s %s)", fn, x, y))
+			v.fact(st, inRange(r, t))
+			if in.Op == token.REM {
+				v.fact(st, fmt.Sprintf("(=> (and (>= %s 0) (> %s 0)) (and (<= 0 %s) (< %s %s) (<= %s %s)))", x, y, r, r, y, r, x))
+				v.fact(st, fmt.Sprintf("(=> (and (>= %s 0) (> %s %s)) (= %s %s))", x, y, x, r, x))
+			} else {
+				v.fact(st, fmt.Sprintf("(=> (and (>= %s 0) (> %s 0)) (and (<= 0 %s) (<= %s %s)))", x, y, r, r, x))
+			}
+			return r
 		}
 		var qt string
 		if !signed {
